@@ -241,6 +241,7 @@ class World:
         self.host_journal = []
         self.jobs_run = 0
         self.manual_commits = {}  # sha -> description (harness made on w/)
+        self.injector = None
         self.new_berte()
         self.note_commits()
 
@@ -688,6 +689,8 @@ class World:
         self.read_journal()
         crashed = False
         err = None
+        if self.injector:
+            self.injector.active = True
         try:
             self.berte.put_job(job)
             self.berte.process_task()
@@ -696,11 +699,13 @@ class World:
         except Exception as e:   # worker would have died
             err = e
         finally:
+            if self.injector:
+                self.injector.active = False
             os.environ.pop('GIT_AUTHOR_DATE', None)
             os.environ.pop('GIT_COMMITTER_DATE', None)
         if crashed:
-            # the process is gone: drop queue state, new instance later
-            pass
+            # the process is gone: a new instance takes over
+            self.new_berte()
         txs = self.read_journal()
         self.note_commits()
         pending = []
@@ -731,6 +736,8 @@ class World:
         heads0, tags0, host0 = self.heads(), self.tags(), self.host_state()
         self.read_journal()
         crashed, err = False, None
+        if self.injector:
+            self.injector.active = True
         try:
             self.berte.process_task()
         except Crash:
@@ -738,8 +745,12 @@ class World:
         except Exception as e:
             err = e
         finally:
+            if self.injector:
+                self.injector.active = False
             os.environ.pop('GIT_AUTHOR_DATE', None)
             os.environ.pop('GIT_COMMITTER_DATE', None)
+        if crashed:
+            self.new_berte()
         txs = self.read_journal()
         self.note_commits()
         return JobResult(job, getattr(job, 'status', ''),
@@ -807,6 +818,8 @@ class World:
 
     def close(self):
         try:
+            if self.injector:
+                self.injector.uninstall()
             if self.berte and self.berte.git_repo.tmp_directory:
                 shutil.rmtree(self.berte.git_repo.tmp_directory,
                               ignore_errors=True)
